@@ -85,6 +85,7 @@ def dispatch (line : String) : String :=
   | "assignat" :: rest => handleAssignAt rest
   | "spantree" :: rest => handleSpanTree rest
   | "mono" :: rest => handleMono rest
+  | "monov" :: rest => handleMonoV rest
   | "monoop" :: rest => handleMonoOp rest
   | "monolabel" :: rest => handleMonoLabel rest
   | _ => "bad-op"
